@@ -61,7 +61,7 @@ func (h *hashRanges) addElement(elHash uint64) {
 		rng.elements++
 	}
 	h.dirty[rng] = struct{}{}
-	if rng.elements > h.compareThreshold {
+	if rng.elements > h.compareThreshold && canDivide(rng.from, rng.to, h.divideFactor) {
 		rng.isDivided = true
 		h.makeBottomRanges(rng)
 	}
@@ -157,7 +157,7 @@ func (h *hashRanges) makeBottomRanges(rng *hashRange) {
 	for _, tuple := range ranges {
 		newRange := h.makeRange(tuple, rng)
 		h.ranges[tuple] = newRange
-		if newRange.elements > h.compareThreshold {
+		if newRange.elements > h.compareThreshold && canDivide(tuple.from, tuple.to, h.divideFactor) {
 			if _, ok := h.dirty[rng]; ok {
 				delete(h.dirty, rng)
 			}
@@ -192,6 +192,12 @@ func (h *hashRanges) calcDividedHash(rng *hashRange) (hash []byte) {
 	}
 	hash = hasher.Sum(nil)
 	return
+}
+
+// canDivide reports whether [from, to] is long enough to be split into divideFactor non-empty parts;
+// a narrower range (adjacent or colliding hashes) stays a leaf whatever the number of its elements
+func canDivide(from, to uint64, divideFactor int) bool {
+	return to-from >= uint64(divideFactor)-1
 }
 
 func genTupleRanges(from, to uint64, divideFactor int) (prepare []rangeTuple) {
